@@ -18,12 +18,14 @@ from harness import common as C
 
 RULE = ('histories over the alphabet {read_x, read_y, read_r, read_t, crop, pad1, pad21, padshape0, mask, mask_r, fill, spike_clip, '
         'remove_piston, remove_tiptilt, remove_power, recenter, latcal2, latcal037, strip_latcal, filter, exact_xy, exact_x, pvr, slices, '
-        'copy, psd} by prefix-shared DFS: quick = length 3 over 21 of the operations on 2 configurations and length 2 over all 26 on 26 more; '
-        'thorough = length 4 on 1, length 3 on 11, length 2 on the others, length 5 over the 11 coordinate-relevant operations on 1; '
+        'copy, psd} by prefix-shared DFS: quick = length 3 over 21 of the operations on 1 configuration and length 2 over all 26 on 12 more; '
+        'thorough = length 4 on 1, length 3 on 4, length 2 on the others, length 5 over 9 coordinate-relevant operations on 1; '
         'configurations = shape in {8x8, 9x7, 12x9, 7x10, 7x7} x invalid pattern in {none, circular, ragged edge, interior dropouts, mixed '
         'NaN/+inf/-inf} x dx in {1, 0.37}; dx = 0 (constructor without lateral calibration) with length-2 histories over the operations '
         'that do not divide by dx; memory layouts: data Fortran-ordered / a transposed view / strided / negatively strided x every invalid '
-        'pattern x shapes 9x7, 7x10, every operation (length 1; length 2 on 4 (quick), length 2 on all and 3 on 4 (thorough)), each history '
+        'pattern x shapes 9x7, 7x10, every operation (length 1; length 2 on 2 (quick), length 2 on all and 3 on 2 (thorough)), each history '
+        'run likewise; degenerate extents 1x1, 1x2, 2x1, 1x5, 5x1, 2x2, 2x3, 3x2, 3x3, 1x9, 2x8 x {none, dropouts, mixed non-finite} through every operation '
+        '(length 1; length 2 on 3 (quick); length 2 on all, 3 on 3 (thorough)) with value-level model comparison; layout histories are each '
         'run on a C-contiguous copy as well and the two objects compared after every step; seeded random histories up to length 40 (random '
         'layout) with value-level model comparison at every step; crop '
         'additionally on every shape of a list (wide, tall, square, odd/even, 1-wide) x all 16 combinations of touching-the-edge / '
@@ -94,6 +96,19 @@ def make_data(shape, pattern, data_seed):
 
 
 LAYOUTS = ['C', 'F', 'T', 'strided', 'neg']
+# degenerate extents: a single sample, a single row / column, 2-sample axes (centre index 0 or 1, linspace(-1, 1, 1), rank-deficient
+# fits, one-sample bounding boxes) — "all data shapes" of the quantifier
+TINY_SHAPES = [(1, 1), (1, 2), (2, 1), (1, 5), (5, 1), (2, 2), (2, 3), (3, 2), (3, 3), (1, 9), (2, 8)]
+
+
+def tiny_configs():
+    out = []
+    for k, shape in enumerate(TINY_SHAPES):
+        for pat in ('none', 'dropouts', 'infs'):
+            if pat != 'none' and shape[0] * shape[1] < 3:
+                continue
+            out.append({'shape': list(shape), 'pattern': pat, 'dx': DXS[k % 2], 'data_seed': 5000 + k})
+    return out
 
 
 def relayout(z, layout):
@@ -286,7 +301,7 @@ def apply_op(i, op):
     if op == 'pvr':
         # normalisation radius covering every sample (pvr of a map with no sample inside the unit disc, or with no valid
         # sample at all, has nothing to evaluate and raises: not part of the property)
-        rmax = float(copy.deepcopy(i).r.max())
+        rmax = float(_light_copy(i).r.max())
         if np.isfinite(i.data).any() and rmax > 0:
             i.pvr(normalization_radius=1.01 * rmax)
         else:
@@ -322,12 +337,29 @@ def _close(a, b, scale=1.0):
     return abs(a - b) <= TOL * max(1.0, abs(scale), abs(b))
 
 
+def _light_copy(i):
+    """an independent copy of the object for read-only probing: own copies of the data and of the four coordinate caches (the only
+    arrays the probes may rebind or touch), without deep-copying the C-contiguous twin, metadata or interpolators"""
+    j = copy.copy(i)
+    j.__dict__.pop('_verif_twin', None)
+    for a in ('data', '_x', '_y', '_r', '_t', 'intensity'):
+        v = i.__dict__.get(a)
+        if isinstance(v, np.ndarray):
+            j.__dict__[a] = np.array(v, copy=True, order='K')
+    return j
+
+
+def _within(a, b, atol):
+    """np.allclose(a, b, rtol=0, atol=atol) without its overhead (NaN anywhere -> False, as there)"""
+    return bool(np.all(np.abs(a - b) <= atol))
+
+
 def coord_failures(i):
     """coherence of the exposed coordinate arrays, evaluated on deep copies so that the history is not disturbed.
     The getters populate each other (reading r also refreshes t), so both read orders are examined."""
     out = []
     for order in (('x', 'y', 'r', 't'), ('t', 'y', 'x', 'r')):
-        out += _coord_failures_order(copy.deepcopy(i), order)
+        out += _coord_failures_order(_light_copy(i), order)
         if out:
             break
     return out
@@ -350,13 +382,13 @@ def _coord_failures_order(j, order):
     if out:
         return out
     ext = dx * max(shp)
-    if shp[1] > 1 and not np.allclose(np.diff(x, axis=1), dx, rtol=0, atol=TOL * ext):
+    if shp[1] > 1 and not _within(np.diff(x, axis=1), dx, TOL * ext):
         out.append(f'x is not spaced by dx={dx}: first step {x[0, 1] - x[0, 0]}')
-    if shp[0] > 1 and not np.allclose(np.diff(y, axis=0), dx, rtol=0, atol=TOL * ext):
+    if shp[0] > 1 and not _within(np.diff(y, axis=0), dx, TOL * ext):
         out.append(f'y is not spaced by dx={dx}: first step {y[1, 0] - y[0, 0]}')
     if np.ptp(x, axis=0).max() > TOL * ext or np.ptp(y, axis=1).max() > TOL * ext:
         out.append('x varies along axis 0 or y varies along axis 1 (not a Cartesian grid)')
-    if not np.allclose(r, np.hypot(x, y), rtol=0, atol=TOL * max(ext, float(np.abs(x).max()), float(np.abs(y).max()))):
+    if not _within(r, np.hypot(x, y), TOL * max(ext, float(np.abs(x).max()), float(np.abs(y).max()))):
         out.append(f'r is not hypot(x, y): max |r| = {r.max()}, max hypot = {np.hypot(x, y).max()}')
     tt = np.arctan2(y, x)
     dt = np.abs(np.angle(np.exp(1j * (t - tt))))
@@ -398,7 +430,7 @@ def stats_failures(i):
 
 def _tilt_refit(i):
     from prysm.polynomials import lstsq
-    j = copy.deepcopy(i)
+    j = _light_copy(i)
     return lstsq([j.x, j.y], j.data), j
 
 
@@ -415,13 +447,26 @@ def _power_design_ok(data):
 
 
 def _tilt_design_ok(i):
-    j = copy.deepcopy(i)
+    j = _light_copy(i)
     fin = np.isfinite(j.data)
     if fin.sum() < 3:
         return False
     A = np.stack([j.x[fin], j.y[fin]]).T
     s = np.linalg.svd(A, compute_uv=False)
     return s[-1] > 1e-3 * s[0] > 0
+
+
+def _tilt_design_exactly_deficient(i):
+    """the tilt design [x, y] on the valid samples has a numerically EXACT rank defect (a zero column on a single row / column, all
+    valid samples on one line through the origin, a single sample): theorem `tilt_removal_idempotent_any_rank` says the minimum-norm
+    re-fit (what lstsq returns) is still exactly 0, because ALL fitted columns are removed"""
+    j = _light_copy(i)
+    fin = np.isfinite(j.data)
+    if fin.sum() < 1:
+        return False
+    A = np.stack([j.x[fin], j.y[fin]]).T
+    s = np.linalg.svd(A, compute_uv=False)
+    return s[0] == 0 or s[-1] <= 1e-13 * s[0] or fin.sum() == 1
 
 
 def op_failures(before, op, i):
@@ -433,7 +478,11 @@ def op_failures(before, op, i):
     if op not in CHANGERS:
         if d1.shape != d0.shape:
             out.append(f'{op} changed the data shape {d0.shape} -> {d1.shape}')
-        elif not np.array_equal(np.isnan(d0), np.isnan(d1)) or not np.array_equal(np.isfinite(d0), np.isfinite(d1)):
+        elif not np.array_equal(np.isfinite(d0), np.isfinite(d1)) or \
+                (np.isfinite(d0).any() and not np.array_equal(np.isnan(d0), np.isnan(d1))):
+            # (a map WITHOUT any valid sample has no mean / fit: inf - NaN = NaN turns an invalid +-inf into an invalid NaN; the set of
+            #  invalid samples — the non-finite ones — is what the property speaks about, the NaN / inf distinction is only compared
+            #  when the subtracted term is defined)
             out.append(f'{op} changed the set of invalid samples')
     if op in READ_ONLY:
         if d1.shape != d0.shape or not np.array_equal(d0, d1, equal_nan=True):
@@ -452,6 +501,11 @@ def op_failures(before, op, i):
         ext = float(max(np.abs(j.x).max(), np.abs(j.y).max(), 1e-12))
         if np.abs(c).max() * ext > TOL * scale * 100:
             out.append(f're-fitting tilt after remove_tiptilt finds coefficients {c.tolist()}')
+    if op == 'remove_tiptilt' and nv >= 1 and np.all(np.abs(_valid(d0)) < 1e6) and _tilt_design_exactly_deficient(i):
+        c, j = _tilt_refit(i)
+        ext = float(max(np.abs(j.x).max(), np.abs(j.y).max(), 1e-12))
+        if not np.all(np.isfinite(c)) or np.abs(c).max() * ext > TOL * scale * 100:
+            out.append(f're-fitting tilt after remove_tiptilt on a rank-deficient design (minimum-norm solution) finds coefficients {c.tolist()}')
     if op == 'remove_power' and nv >= 3 and _power_design_ok(d1):
         fin = np.isfinite(d1)
         m, n = d1.shape
@@ -586,7 +640,7 @@ class Runner:
         before = (i.data.copy(), float(i.dx))
         was = real_summary(i)
         trivial = op.startswith('read_') and was[op[-1]] not in (None, False)
-        ctx.case('history', case, nontrivial=not trivial, tag=op)
+        ctx.case('history', case, nontrivial=not trivial, tag=op + ('/tiny' if min(cfg['shape']) <= 3 else ''))
         pre_xy = None
         try:
             with warnings.catch_warnings():
@@ -641,13 +695,76 @@ class Runner:
         if HAND_ALSO[0]:
             self.lines.append(hist_line(cfg, reqs_so_far, hand=True))
             self.expect.append(('state', dict(cfg, ops=list(prefix_ops), table='hand'), summ))
+        if len(self.lines) >= self.CHUNK:
+            self.flush()
+
+    CHUNK = 6000
+
+    def _drive(self, slot, lines):
+        """one Lean driver process for one chunk of requests (own input file: several run concurrently with the Python side)"""
+        import os
+        try:
+            os.makedirs(C.WORK, exist_ok=True)
+            inp = os.path.join(C.WORK, f'C12.{os.getpid()}.{slot}.in')
+            with open(inp, 'w') as f:
+                f.write('\n'.join(lines) + '\n')
+            try:
+                with open(inp) as fin:
+                    rc, out = C._run(['lake', 'env', 'lean', '--run', 'Drivers/C12.lean'], stdin=fin, timeout=1800)
+            finally:
+                os.unlink(inp)
+            rows = out.split('\n')
+            if rows and rows[-1] == '':
+                rows.pop()
+            if rc != 0 or len(rows) != len(lines):
+                raise C.ToolError(f'driver C12: rc={rc}, {len(rows)} replies for {len(lines)} requests\n{out[-2000:]}')
+            self.results[slot] = rows
+        except BaseException as ex:      # re-raised in the main thread by finish()
+            self.results[slot] = ex
 
     def flush(self):
+        """hand the queued requests to Lean driver processes running in the background (chunks of CHUNK lines); the replies are
+        compared in finish(), in the order the requests were queued"""
+        import threading
+        if not hasattr(self, 'pending'):
+            self.pending, self.results = [], {}
+        while self.lines:
+            lines, expect = self.lines[:self.CHUNK], self.expect[:self.CHUNK]
+            self.lines, self.expect = self.lines[self.CHUNK:], self.expect[self.CHUNK:]
+            slot = len(self.pending)
+            th = threading.Thread(target=self._drive, args=(slot, lines))
+            while sum(t.is_alive() for t, _ in self.pending) >= 4:      # at most 4 driver processes at a time
+                for t, _ in self.pending:
+                    if t.is_alive():
+                        t.join(0.2)
+                        break
+            th.start()
+            self.pending.append((th, expect))
+        self._drain(block=False)
+
+    def _drain(self, block):
+        """compare the replies of the chunks that are done, oldest first (keeps memory bounded in the thorough tier)"""
+        while getattr(self, 'done_upto', 0) < len(getattr(self, 'pending', [])):
+            slot = getattr(self, 'done_upto', 0)
+            th, expect = self.pending[slot]
+            if th.is_alive():
+                if not block:
+                    return
+                th.join()
+            rep = self.results.pop(slot)
+            self.pending[slot] = (th, None)
+            self.done_upto = slot + 1
+            if isinstance(rep, BaseException):
+                raise rep
+            self._compare(expect, rep)
+
+    def finish(self):
+        self.flush()
+        self._drain(block=True)
+
+    def _compare(self, expect, rep):
         ctx = self.ctx
-        if not self.lines:
-            return
-        rep = C.lean_driver('C12', self.lines)
-        for (kind, case, payload), line in zip(self.expect, rep):
+        for (kind, case, payload), line in zip(expect, rep):
             if line == 'bad-op':
                 ctx.disagree(kind, case, 'n/a', 'model replied bad-op')
                 continue
@@ -686,7 +803,6 @@ class Runner:
                     r0, r1, c0, c1 = map(int, line.split())
                     if bb != (r0, r1, c0, c1) or shp != (r1 - r0, c1 - c0):
                         ctx.disagree('crop', case, f'{bb} -> {shp}', line)
-        self.lines, self.expect = [], []
 
 
 def _dfs(run, cfg, i, prefix, reqs, alphabet, depth, values=False):
@@ -882,12 +998,19 @@ def correspondence(ctx):
     for k, (lay, pat, shape) in enumerate(itertools.product(LAYOUTS[1:], PATTERNS, [(9, 7), (7, 10)])):
         lcfgs.append({'shape': list(shape), 'pattern': pat, 'dx': DXS[k % 2], 'data_seed': 3000 + k, 'layout': lay})
     lorder = list(ctx.rng.permutation(len(lcfgs)))
-    ldeep = set(lorder[:ctx.scale(4 + 2 * widen, 4)])
+    ldeep = set(lorder[:ctx.scale(2 + 2 * widen, 2)])
     for k, cfg in enumerate(lcfgs):
         depth = (ctx.scale(2, 3) if k in ldeep else ctx.scale(1, 2))
         _dfs(run, cfg, make_obj(cfg), [], [], ALPHABET if depth < 3 else DFS3_ALPHABET, depth)
+    # degenerate extents (1x1, single row / column, 2-sample axes): every operation, length 1 (quick: length 2 on 6) / 2 (thorough: 3 on 6)
+    tcfgs = tiny_configs()
+    tdeep = set(int(k) for k in ctx.rng.permutation(len(tcfgs))[:3 + 2 * widen])
+    for k, cfg in enumerate(tcfgs):
+        depth = (ctx.scale(2, 3) if k in tdeep else ctx.scale(1, 2))
+        _dfs(run, cfg, make_obj(cfg), [], [], ALPHABET if depth < 3 else DFS3_ALPHABET, depth, values=True)
+    run.flush()
     # exhaustive, prefix-shared
-    ndeep = ctx.scale(2 + widen, 1)
+    ndeep = ctx.scale(1 + widen, 1)
     deep = [cfgs[k] for k in order[:ndeep]]
     mid = [cfgs[k] for k in order[ndeep:]]
     for cfg in deep:
@@ -896,17 +1019,17 @@ def correspondence(ctx):
         if len(run.lines) > 200000:
             run.flush()
     if not ctx.thorough:
-        mid = mid[:26]
+        mid = mid[:12 + 6 * widen]
     for k, cfg in enumerate(mid):
-        _dfs(run, cfg, make_obj(cfg), [], [], ALPHABET, ctx.scale(2, 3) if not (ctx.thorough and k >= 11) else 2,
+        _dfs(run, cfg, make_obj(cfg), [], [], ALPHABET, ctx.scale(2, 3) if not (ctx.thorough and k >= 4) else 2,
              values=(k < 6))
     run.flush()
     if ctx.thorough:
         for cfg in mid[:1]:
-            _dfs(run, cfg, make_obj(cfg), [], [], COORD_ALPHABET, 5)
+            _dfs(run, cfg, make_obj(cfg), [], [], [op for op in COORD_ALPHABET if op not in ('filter', 'exact_xy')], 5)
             run.flush()
     # random long histories with value-level comparison at every step
-    nrand = ctx.scale(120, 800)
+    nrand = ctx.scale(80, 600)
     for _ in range(nrand):
         cfg = dict(cfgs[int(ctx.rng.integers(len(cfgs)))], data_seed=int(ctx.rng.integers(1, 10 ** 6)),
                    layout=LAYOUTS[int(ctx.rng.integers(len(LAYOUTS)))])
@@ -923,9 +1046,7 @@ def correspondence(ctx):
             reqs = reqs + r
             prefix = prefix + [op]
             run.queue_state(cfg, prefix, reqs, i)
-        if len(run.lines) > 100000:
-            run.flush()
-    run.flush()
+    run.finish()
     # report the shortest failing history first
     ctx.pred_failures.sort(key=lambda f: len(f['case'].get('ops', [])))
     ctx.disagreements.sort(key=lambda f: len(f['case'].get('ops', [])))
@@ -992,6 +1113,11 @@ def search(ctx, hints):
                 f = run_history(cfg, [op])
                 if f:
                     return {'item': 'history', 'input': dict(cfg, ops=[op]), 'detail': f[0]}
+    for cfg in tiny_configs():
+        for op in ALPHABET:
+            f = run_history(cfg, [op])
+            if f:
+                return {'item': 'history', 'input': dict(cfg, ops=[op]), 'detail': f[0]}
     pick = [c for c in cfgs if c['shape'] in ([8, 8], [9, 7]) and c['dx'] == 0.37]
     for L in (1, 2, 3):
         for cfg in pick:
@@ -1050,11 +1176,22 @@ MANIFEST_ENTRY = {
              'view, out=, in-place methods, helpers that write into their argument). The Lean driver executes the effect lists translated '
              'from the current source (sent over the wire), the hand table only in addition when they differ. Operations exercised on the '
              'real object include exact_xy / exact_x (interpolated value at a grid node = the data there), pvr, slices, copy, psd (read-only: '
-             'data bit-identical), pad(value, shape=) with a block-placement predicate, maps with +-inf, dx = 0.'),
+             'data bit-identical), pad(value, shape=) with a block-placement predicate, maps with +-inf, dx = 0. Session 3: the WHOLE of crop is '
+             'translated (`crop.margins`: which axis `any` reduces, forward / reversed argmax, the early-return test, the validity test; with '
+             '`crop.slices`) and `crop_source_is_cropBox` proves that the translated crop computes the model\'s bounding box for every validity matrix of '
+             'every shape (so keeps-valid / window / idempotent are statements about the source\'s crop); translated and proved: which util '
+             'statistic each reported property hands self.data to (`gen_stats_delegation`), the shape pad() asks pad2d for (`gen_pad_shape`), '
+             'cart_to_polar = (hypot(x, y), arctan2(y, x)) (`gen_polar_transform`). Least squares for ANY number of columns and any removed '
+             'subset: the zeroed coefficient vector solves the normal equations of the re-fit (`ls_removal_residual_solves`, no rank assumption), every '
+             're-fit finds 0 when the columns are independent (`ls_removal_idempotent`), and when ALL columns are removed (tilt) zero is the minimum-norm '
+             'solution for EVERY rank (`tilt_removal_idempotent_any_rank`; checked on the real code on single-row / single-column / one-sample maps). '
+             'Degenerate extents (1x1, 1xN, Nx1, 2-sample axes) run through every operation. `history_coherent_and_validity`: ONE induction over any '
+             'history of calls of the current source gives coherence of the coordinate state AND unchanged validity of every stored sample as long as '
+             'no call of {mask, fill, spike_clip, crop, pad, filter} occurs (`keeper_call_keeps_validity` per call), from the two translated tables.'),
     'note': ('partial: the effect lists abstract array contents to affine grids (shape, origin, spacing) — that the NumPy '
              'statements have those effects is translated syntactically and validated by the history correspondence, not proved; '
-             '`filter` values, pvr values and plotting are not modelled; make_xy_grid / cart_to_polar / lstsq bodies are compared, not translated; validity preservation is proved for finite subtracted terms only; np.linalg.lstsq is trusted to return the normal-equation '
-             'solution (idempotence is not claimed for rank-deficient designs such as a single valid sample); NaN propagation '
+             '`filter` values, pvr values and plotting are not modelled; make_xy_grid (translated by C04) / lstsq bodies are compared, not translated here; validity preservation is proved for finite subtracted terms only; np.linalg.lstsq is trusted to return the normal-equation '
+             'solution / the minimum-norm one (power-removal idempotence is not claimed for rank-deficient designs — it is false there, e.g. all valid samples on one circle; tilt is proved for every rank); NaN propagation '
              'through FFT (filter after mask) is observed, not modelled. Trusted: Lean kernel + standard axioms, the ast->effect '
              'translator, NumPy semantics, float tolerances 1e-9.'),
 }
